@@ -267,10 +267,11 @@ def build_partial_driver(prop):
 		rc, out, err = sh(f'timeout 600 coqc -Q ../../coq/theories GV -Q . GVP {f}', cwd=d)
 		if rc != 0:
 			return False, f'partial driver: coqc {f} failed: ' + (out + err)[-400:], None, missing
-	rc, out, err = sh('cp ../driver.ml . && timeout 600 ocamlfind ocamlopt -O3 -w -a model.mli model.ml driver.ml -o model_driver', cwd=d)
+	rc, out, err = sh('cp ../driver.ml . && timeout 600 ocamlfind ocamlopt -O3 -w -a model.mli model.ml driver.ml -o model_driver.new', cwd=d)
 	drv = os.path.join(d, 'model_driver')
-	if rc != 0 or not os.path.exists(drv):
+	if rc != 0 or not os.path.exists(drv + '.new'):
 		return False, 'partial driver: ocamlopt failed: ' + (out + err)[-400:], None, missing
+	os.replace(drv + '.new', drv)
 	return True, 'partial driver (no model for ' + ', '.join(f'C{i:02d}' for i in missing) + ')', drv, missing
 
 
@@ -289,9 +290,12 @@ def build_driver(force=False):
 	rc, out, err = sh('timeout 600 coqc -Q ../coq/theories GV ../coq/theories/Extract.v', cwd=OCAML)
 	if rc != 0:
 		return False, 'extraction failed: ' + (out + err)[-500:]
-	rc, out, err = sh('timeout 600 ocamlfind ocamlopt -O3 -w -a model.mli model.ml driver.ml -o model_driver', cwd=OCAML)
-	if rc != 0 or not os.path.exists(drv):
+	# built under another name and moved into place atomically: a check that is running its campaign in this tree
+	# keeps executing the old binary instead of hitting a half-written file
+	rc, out, err = sh('timeout 600 ocamlfind ocamlopt -O3 -w -a model.mli model.ml driver.ml -o model_driver.new', cwd=OCAML)
+	if rc != 0 or not os.path.exists(drv + '.new'):
 		return False, 'ocamlopt failed: ' + (out + err)[-500:]
+	os.replace(drv + '.new', drv)
 	return True, 'rebuilt'
 
 
